@@ -26,7 +26,7 @@ theorem VQ_refl : QRefl (VQ cx) := by
   intro D f h
   cases f with
   | mk ps v vt r g a b =>
-    exact .fnBody rfl (.genB fun Q hq => reflB hq b D (NoRefF.mk.mp h).2)
+    exact .fnBody rfl (Heap.NoWat.names (NoRefF.mk.mp h).1) (.genB fun Q hq => reflB hq b D (NoRefF.mk.mp h).2)
 
 theorem VR.es_nil_iff {D xs xs' D'} (h : VR cx D (.es xs) (.es xs') D') : xs = [] ↔ xs' = [] := by
   cases h <;> simp
@@ -48,8 +48,8 @@ theorem fund {D a b D'} (h : VR cx D a b D') : VSound (VQ cx) cx D a b D' := by
   | genL h => exact h (VQ cx) VQ_refl
   | genB h => exact h (VQ cx) VQ_refl
   | genRep h => exact h (VQ cx) VQ_refl
-  | dropLocal hp _ ih => exact dropLocal_sound hp ih
-  | addLocal hp _ ih => exact addLocal_sound hp ih
+  | dropLocal hp hw _ ih => exact dropLocal_sound hp hw ih
+  | addLocal hp hw _ ih => exact addLocal_sound hp hw ih
   | paren _ ih => exact SoundE.paren ih
   | un _ ih => exact SoundE.un ih
   | bin _ _ ih1 ih2 => exact SoundE.bin ih1 ih2
@@ -78,19 +78,19 @@ theorem fund {D a b D'} (h : VR cx D a b D') : VSound (VQ cx) cx D a b D' := by
   | tField _ ih => exact SoundT.field ih
   | tIndex _ _ ih1 ih2 => exact SoundT.index ih1 ih2
   | tNonLv h h' => exact SoundT.nonLv h h'
-  | fnBody _ _ _ => trivial
+  | fnBody _ _ _ _ => trivial
   | assign _ _ ih1 ih2 => exact SoundS.assign ih1 ih2
   | cassign _ _ ih1 ih2 => exact SoundS.cassign ih1 ih2
   | callStmt _ ih => exact SoundS.callStmt ih
   | doBlock _ ih => exact SoundS.doBlock ih
   | function hr h _ => exact SoundS.function (Q := (VQ cx)) hr h
-  | gfor hn _ _ ih1 ih2 => exact SoundS.gfor hn ih1 ih2
-  | nforNone hn _ _ _ ih1 ih2 ih3 => exact SoundS.nforNone hn ih1 ih2 ih3
-  | nforSome hn _ _ _ _ ih1 ih2 ih3 ih4 => exact SoundS.nforSome hn ih1 ih2 ih3 ih4
+  | gfor hn hw _ _ ih1 ih2 => exact SoundS.gfor hn hw ih1 ih2
+  | nforNone hn hw _ _ _ ih1 ih2 ih3 => exact SoundS.nforNone hn hw ih1 ih2 ih3
+  | nforSome hn hw _ _ _ _ ih1 ih2 ih3 ih4 => exact SoundS.nforSome hn hw ih1 ih2 ih3 ih4
   | ifsNone _ ih => exact SoundS.ifsNone ih
   | ifsSome _ _ ih1 ih2 => exact SoundS.ifsSome ih1 ih2
-  | localAssign hn _ ih => exact SoundS.localAssign hn ih
-  | localFn h _ => exact SoundS.localFn (Q := (VQ cx)) h
+  | localAssign hn hw _ ih => exact SoundS.localAssign hn hw ih
+  | localFn hw h _ => exact SoundS.localFn (Q := (VQ cx)) hw h
   | rep _ _ ih1 ih2 => exact SoundRep.mk ih1 ih2
   | repeat_ _ ih => exact SoundS.repeat_ ih
   | while_ _ _ ih1 ih2 => exact SoundS.while_ ih1 ih2
@@ -109,7 +109,7 @@ theorem fundB {D b b' D'} (h : VR cx D (.b b) (.b b') D') : SoundB (VQ cx) cx D 
 /-! ### call levels -/
 
 theorem RRel.retWrap {N : NumOps} {Q : QRel} {β : Inj N} {D' : List DName} {r r' : Res N (Ctl N)} :
-    RRel Q cx β (ACtl D') r r' →
+    RRel Q cx β (ACtl cx D') r r' →
     RRel Q cx β AVs (match r with
         | .ok (.ret vs) σ2 => (Res.ok vs σ2 : Res N (List (Val N)))
         | .ok _ σ2 => .ok [] σ2
@@ -144,9 +144,9 @@ theorem callClosure_ok {N : NumOps} (ρ : ExtOracle N) (hρ : OracleFlat ρ)
     obtain ⟨hv, D, hb, he⟩ := hcc
     simp only [] at hv hb he
     cases hb with
-    | @fnBody _ ps ps' v vt vt' r r' g g' a a' b b' D' hn hbb =>
+    | @fnBody _ ps ps' v vt vt' r r' g g' a a' b b' D' hn hwp hbb =>
       simp only [callClosure, hn]
-      obtain ⟨β1, h1, hs1, he1⟩ := hs.bindLocals (List.map TName.name ps') ha he
+      obtain ⟨β1, h1, hs1, he1⟩ := hs.bindLocals (List.map TName.name ps') hwp ha he
       refine RRel.mono h1 (RRel.retWrap (D' := D') ?_)
       refine (fundB hbb).2 N _ ρ n _ _ _ _ _ ⟨hCF n, callClosure_ok ρ hρ hCF n, hρ⟩ hs1 ⟨?_, he1⟩
       simp only []
@@ -155,6 +155,17 @@ theorem callClosure_ok {N : NumOps} (ρ : ExtOracle N) (hρ : OracleFlat ρ)
       · exact .nil
 
 /-! ### the initial state -/
+
+/-- the initial dead set: the watched globals -/
+def watD (cx : Cx) : List DName := cx.W.map DName.wat
+
+theorem EnvRel.init {N : NumOps} {β : Inj N} (hW0 : cx.top) : EnvRel cx β (watD cx) [] [] :=
+  ⟨fun _ _ => by simp only [lookupAssoc, OptRel], fun _ hn => List.mem_map_of_mem hn, fun n hn => by
+    obtain ⟨m, hm, e⟩ := List.mem_map.mp hn
+    cases e
+    have := hW0 n hm
+    exact ⟨by simp only [lookupAssoc]; exact this.1.symm, by simp only [lookupAssoc]; exact this.2.symm⟩⟩
+
 
 /-- the initial injections: identity on the three library tables, nothing else -/
 def initRel : Inj N := { c := fun _ _ => False, t := fun a b => a = b ∧ a < 3, f := fun _ _ => False }
@@ -173,7 +184,9 @@ theorem libTable_rel {N : NumOps} {β : Inj N} (pre : String) (names : List Stri
 
 /-- the initial state is related to itself -/
 theorem SRel.init {N : NumOps} (Q : QRel) (externs : List String)
-    (hI : cx.I N initRel (initState externs : State N) (initState externs)) :
+    (hI : cx.I N initRel (initState externs : State N) (initState externs))
+    (hG : ∀ p ∈ cx.G N, (initState externs : State N).getGlobal p.1 = p.2 := by intro _ h; cases h)
+    (hF : ∀ p ∈ cx.F, FnGlobal (initState externs : State N) p.1 p.2 := by intro _ h; cases h) :
     SRel Q cx initRel (initState externs : State N) (initState externs) where
   globals := by
     apply forall2_self
@@ -213,6 +226,8 @@ theorem SRel.init {N : NumOps} (Q : QRel) (externs : List String)
     | 2, _ => exact ⟨_, _, rfl, rfl, hrel _ _⟩
   clo := fun h => False.elim h
   strlib := ⟨rfl, by decide⟩
+  ginv := fun p hp => ⟨hG p hp, hG p hp⟩
+  finv := fun p hp => ⟨hF p hp, hF p hp⟩
   front := ⟨Nat.zero_le _, Nat.zero_le _, Nat.zero_le _, Nat.zero_le _, Nat.zero_le _, Nat.zero_le _⟩
   pin := fun _ hp => by cases hp
   pinR := fun _ hp => by cases hp
@@ -226,7 +241,9 @@ theorem SRel.init {N : NumOps} (Q : QRel) (externs : List String)
 one-sided preludes of a bundle have been run under the trivial context): only the consumer's invariant of the
 new context has to be established -/
 theorem SRel.rebase {N : NumOps} {Q Q' : QRel} {cx' : Cx} {β : Inj N} {σ σ' : State N} (h : SRel Q cx β σ σ')
-    (hf : ∀ a b, ¬ β.f a b) (hI : cx'.I N β σ σ') : SRel Q' cx' β σ σ' where
+    (hf : ∀ a b, ¬ β.f a b) (hI : cx'.I N β σ σ')
+    (hG : ∀ p ∈ cx'.G N, σ.getGlobal p.1 = p.2 ∧ σ'.getGlobal p.1 = p.2 := by intro _ h; cases h)
+    (hF : ∀ p ∈ cx'.F, FnGlobal σ p.1 p.2 ∧ FnGlobal σ' p.1 p.2 := by intro _ h; cases h) : SRel Q' cx' β σ σ' where
   globals := h.globals
   trace := h.trace
   injC := h.injC
@@ -236,6 +253,8 @@ theorem SRel.rebase {N : NumOps} {Q Q' : QRel} {cx' : Cx} {β : Inj N} {σ σ' :
   tbl := h.tbl
   clo := fun hab => absurd hab (hf _ _)
   strlib := h.strlib
+  ginv := hG
+  finv := hF
   front := h.front
   pin := h.pin
   pinR := h.pinR
@@ -257,11 +276,12 @@ theorem runChunk_eq_wrapCtl {N : NumOps} (ρ : ExtOracle N) (n : Nat) (b : Block
     runChunk ρ n b σ = wrapCtl (execB (callClosure ρ n) ρ n ⟨[], []⟩ b σ) := rfl
 
 theorem runChunk_rel {N : NumOps} (ρ : ExtOracle N) (hρ : OracleFlat ρ) (hCF : ∀ n, cx.CF N ρ n (callClosure ρ n))
-    (n : Nat) {b b' : Block} {D' : List DName} (h : VR cx [] (.b b) (.b b') D') {β : Inj N} {σ σ' : State N} (hs : SRel (VQ cx) cx β σ σ') :
+    (n : Nat) {b b' : Block} {D' : List DName} (h : VR cx (watD cx) (.b b) (.b b') D') {β : Inj N} {σ σ' : State N} (hs : SRel (VQ cx) cx β σ σ')
+    (hW0 : cx.top := by top_tac) :
     RRel (VQ cx) cx β AVs (runChunk ρ n b σ) (runChunk ρ n b' σ') := by
   unfold runChunk
   exact RRel.retWrap ((fundB h).2 N _ ρ n _ _ _ _ _ ⟨hCF n, callClosure_ok ρ hρ hCF n, hρ⟩ hs
-    ⟨.nil, fun _ _ => by simp only [lookupAssoc, OptRel]⟩)
+    ⟨.nil, EnvRel.init hW0⟩)
 
 theorem observe_rel {N : NumOps} {β : Inj N} {r r' : Res N (List (Val N))} (h : RRel (VQ cx) cx β AVs r r') :
     (cx.upto = true ∧ observe r = .timeout) ∨ (cx.uptoR = true ∧ observe r' = .timeout) ∨ observe r' = observe r := by
@@ -281,7 +301,7 @@ after both sides have executed their own preludes): the final-theorem form of `r
 initial environment -/
 theorem observe_of_soundB {N : NumOps} {D D' : List DName} {b b' : Block} (h : SoundB (VQ cx) cx D b b' D')
     (ρ : ExtOracle N) (hρ : OracleFlat ρ) (hCF : ∀ n, cx.CF N ρ n (callClosure ρ n)) (n : Nat) {β : Inj N}
-    {env env' : Env N} {σ σ' : State N} (hs : SRel (VQ cx) cx β σ σ') (he : EnvOK β D env env') :
+    {env env' : Env N} {σ σ' : State N} (hs : SRel (VQ cx) cx β σ σ') (he : EnvOK cx β D env env') :
     (cx.upto = true ∧ observe (wrapCtl (execB (callClosure ρ n) ρ n env b σ)) = .timeout) ∨
       (cx.uptoR = true ∧ observe (wrapCtl (execB (callClosure ρ n) ρ n env' b' σ')) = .timeout) ∨
       observe (wrapCtl (execB (callClosure ρ n) ρ n env' b' σ')) =
@@ -291,68 +311,81 @@ theorem observe_of_soundB {N : NumOps} {D D' : List DName} {b b' : Block} (h : S
 /-- **Observational refinement, most general form**: same outcome, or (only when `cx.upto`) the original exhausts
 its budget, or (only when `cx.uptoR`) the rewritten program does -/
 theorem runChunk_vr'' {N : NumOps} (ρ : ExtOracle N) (hρ : OracleFlat ρ) (hCF : ∀ n, cx.CF N ρ n (callClosure ρ n))
-    (n : Nat) {b b' : Block} {D' : List DName} (h : VR cx [] (.b b) (.b b') D') {β : Inj N} {σ σ' : State N}
-    (hs : SRel (VQ cx) cx β σ σ') :
+    (n : Nat) {b b' : Block} {D' : List DName} (h : VR cx (watD cx) (.b b) (.b b') D') {β : Inj N} {σ σ' : State N}
+    (hs : SRel (VQ cx) cx β σ σ')
+    (hW0 : cx.top := by top_tac) :
     (cx.upto = true ∧ observe (runChunk ρ n b σ) = .timeout) ∨
       (cx.uptoR = true ∧ observe (runChunk ρ n b' σ') = .timeout) ∨
       observe (runChunk ρ n b' σ') = observe (runChunk ρ n b σ) :=
-  observe_rel (runChunk_rel ρ hρ hCF n h hs)
+  observe_rel (runChunk_rel ρ hρ hCF n h hs hW0)
 
 /-- contexts without `uptoR`: same outcome — or (only when `cx.upto`) the original exhausts its budget -/
 theorem runChunk_vr' {N : NumOps} (ρ : ExtOracle N) (hρ : OracleFlat ρ) (hCF : ∀ n, cx.CF N ρ n (callClosure ρ n))
-    (n : Nat) {b b' : Block} {D' : List DName} (h : VR cx [] (.b b) (.b b') D') {β : Inj N} {σ σ' : State N}
-    (hs : SRel (VQ cx) cx β σ σ') (hur : cx.uptoR = false := by rfl) :
+    (n : Nat) {b b' : Block} {D' : List DName} (h : VR cx (watD cx) (.b b) (.b b') D') {β : Inj N} {σ σ' : State N}
+    (hs : SRel (VQ cx) cx β σ σ') (hur : cx.uptoR = false := by rfl)
+    (hW0 : cx.top := by top_tac) :
     (cx.upto = true ∧ observe (runChunk ρ n b σ) = .timeout) ∨
       observe (runChunk ρ n b' σ') = observe (runChunk ρ n b σ) := by
-  rcases runChunk_vr'' ρ hρ hCF n h hs with h1 | ⟨h2, _⟩ | h3
+  rcases runChunk_vr'' ρ hρ hCF n h hs hW0 with h1 | ⟨h2, _⟩ | h3
   · exact .inl h1
   · rw [hur] at h2; cases h2
   · exact .inr h3
 
 /-- contexts without `upto`: same outcome — or (only when `cx.uptoR`) the REWRITTEN program exhausts its budget -/
 theorem runChunk_vrR {N : NumOps} (ρ : ExtOracle N) (hρ : OracleFlat ρ) (hCF : ∀ n, cx.CF N ρ n (callClosure ρ n))
-    (n : Nat) {b b' : Block} {D' : List DName} (h : VR cx [] (.b b) (.b b') D') {β : Inj N} {σ σ' : State N}
-    (hs : SRel (VQ cx) cx β σ σ') (hu : cx.upto = false := by rfl) :
+    (n : Nat) {b b' : Block} {D' : List DName} (h : VR cx (watD cx) (.b b) (.b b') D') {β : Inj N} {σ σ' : State N}
+    (hs : SRel (VQ cx) cx β σ σ') (hu : cx.upto = false := by rfl)
+    (hW0 : cx.top := by top_tac) :
     observe (runChunk ρ n b' σ') = .timeout ∨ observe (runChunk ρ n b' σ') = observe (runChunk ρ n b σ) := by
-  rcases runChunk_vr'' ρ hρ hCF n h hs with ⟨h1, _⟩ | ⟨_, h2⟩ | h3
+  rcases runChunk_vr'' ρ hρ hCF n h hs hW0 with ⟨h1, _⟩ | ⟨_, h2⟩ | h3
   · rw [hu] at h1; cases h1
   · exact .inl h2
   · exact .inr h3
 
 /-- exact contexts: equality -/
 theorem runChunk_vr {N : NumOps} (ρ : ExtOracle N) (hρ : OracleFlat ρ) (n : Nat) {b b' : Block} {D' : List DName}
-    (h : VR cx [] (.b b) (.b b') D') {β : Inj N} {σ σ' : State N} (hs : SRel (VQ cx) cx β σ σ')
+    (h : VR cx (watD cx) (.b b) (.b b') D') {β : Inj N} {σ σ' : State N} (hs : SRel (VQ cx) cx β σ σ')
     (hu : cx.upto = false := by rfl) (hCF : ∀ n, cx.CF N ρ n (callClosure ρ n) := by intros; trivial)
-    (hur : cx.uptoR = false := by rfl) :
+    (hur : cx.uptoR = false := by rfl)
+    (hW0 : cx.top := by top_tac) :
     observe (runChunk ρ n b' σ') = observe (runChunk ρ n b σ) := by
-  rcases runChunk_vr' ρ hρ hCF n h hs hur with ⟨h1, _⟩ | h2
+  rcases runChunk_vr' ρ hρ hCF n h hs hur hW0 with ⟨h1, _⟩ | h2
   · rw [hu] at h1; cases h1
   · exact h2
 
 theorem runProgram_vr {N : NumOps} (ρ : ExtOracle N) (hρ : OracleFlat ρ) (n : Nat) (externs : List String)
-    {b b' : Block} {D' : List DName} (h : VR cx [] (.b b) (.b b') D')
+    {b b' : Block} {D' : List DName} (h : VR cx (watD cx) (.b b) (.b b') D')
     (hI : cx.I N initRel (initState externs : State N) (initState externs) := by trivial)
+    (hG : ∀ p ∈ cx.G N, (initState externs : State N).getGlobal p.1 = p.2 := by intro _ h; cases h)
+    (hF : ∀ p ∈ cx.F, FnGlobal (initState externs : State N) p.1 p.2 := by intro _ h; cases h)
     (hu : cx.upto = false := by rfl) (hCF : ∀ n, cx.CF N ρ n (callClosure ρ n) := by intros; trivial)
-    (hur : cx.uptoR = false := by rfl) :
+    (hur : cx.uptoR = false := by rfl)
+    (hW0 : cx.top := by top_tac) :
     runProgram ρ n externs b' = runProgram ρ n externs b :=
-  runChunk_vr ρ hρ n h (SRel.init (VQ cx) externs hI) hu hCF hur
+  runChunk_vr ρ hρ n h (SRel.init (VQ cx) externs hI hG hF) hu hCF hur hW0
 
 /-- up-to-timeout contexts: same outcome unless the original exhausts its budget -/
 theorem runProgram_vr_upto {N : NumOps} (ρ : ExtOracle N) (hρ : OracleFlat ρ) (n : Nat) (externs : List String)
-    {b b' : Block} {D' : List DName} (h : VR cx [] (.b b) (.b b') D')
+    {b b' : Block} {D' : List DName} (h : VR cx (watD cx) (.b b) (.b b') D')
     (hI : cx.I N initRel (initState externs : State N) (initState externs) := by trivial)
-    (hCF : ∀ n, cx.CF N ρ n (callClosure ρ n) := by intros; trivial) (hur : cx.uptoR = false := by rfl) :
+    (hG : ∀ p ∈ cx.G N, (initState externs : State N).getGlobal p.1 = p.2 := by intro _ h; cases h)
+    (hF : ∀ p ∈ cx.F, FnGlobal (initState externs : State N) p.1 p.2 := by intro _ h; cases h)
+    (hCF : ∀ n, cx.CF N ρ n (callClosure ρ n) := by intros; trivial) (hur : cx.uptoR = false := by rfl)
+    (hW0 : cx.top := by top_tac) :
     runProgram ρ n externs b = .timeout ∨ runProgram ρ n externs b' = runProgram ρ n externs b := by
-  rcases runChunk_vr' ρ hρ hCF n h (SRel.init (VQ cx) externs hI) hur with ⟨_, h1⟩ | h2
+  rcases runChunk_vr' ρ hρ hCF n h (SRel.init (VQ cx) externs hI hG hF) hur hW0 with ⟨_, h1⟩ | h2
   · exact .inl h1
   · exact .inr h2
 
 /-- `uptoR` contexts: same outcome unless the REWRITTEN program exhausts its budget -/
 theorem runProgram_vr_uptoR {N : NumOps} (ρ : ExtOracle N) (hρ : OracleFlat ρ) (n : Nat) (externs : List String)
-    {b b' : Block} {D' : List DName} (h : VR cx [] (.b b) (.b b') D')
+    {b b' : Block} {D' : List DName} (h : VR cx (watD cx) (.b b) (.b b') D')
     (hI : cx.I N initRel (initState externs : State N) (initState externs) := by trivial)
-    (hCF : ∀ n, cx.CF N ρ n (callClosure ρ n) := by intros; trivial) (hu : cx.upto = false := by rfl) :
+    (hG : ∀ p ∈ cx.G N, (initState externs : State N).getGlobal p.1 = p.2 := by intro _ h; cases h)
+    (hF : ∀ p ∈ cx.F, FnGlobal (initState externs : State N) p.1 p.2 := by intro _ h; cases h)
+    (hCF : ∀ n, cx.CF N ρ n (callClosure ρ n) := by intros; trivial) (hu : cx.upto = false := by rfl)
+    (hW0 : cx.top := by top_tac) :
     runProgram ρ n externs b' = .timeout ∨ runProgram ρ n externs b' = runProgram ρ n externs b :=
-  runChunk_vrR ρ hρ hCF n h (SRel.init (VQ cx) externs hI) hu
+  runChunk_vrR ρ hρ hCF n h (SRel.init (VQ cx) externs hI hG hF) hu hW0
 
 end DarkluaModel.Sem.HeapU
